@@ -163,7 +163,7 @@ def _run_rto(c, rec):
         return
     refused, built = refuses(lambda: build_rto_target(c))
     if refused:
-        rec.count("target_construction_refused")
+        raise Violation(f"building the linear-Gaussian posterior failed: {type(built).__name__}: {built}")
         return
     target, Lam, rhs, mu, parts = built
     refused, fac = refuses(lambda: one_step_factory(c, target, parts, mu))
@@ -301,7 +301,7 @@ def run_hist(c, rec):
     if kind == "rto":
         refused, built = refuses(lambda: build_rto_target(c))
         if refused:
-            rec.count("target_construction_refused")
+            raise Violation(f"building the linear-Gaussian posterior failed: {type(built).__name__}: {built}")
             return
         target = built[0]
         x0 = A(c["x0"])
